@@ -22,7 +22,8 @@ clos = {}
 for depth in range(0, 3):
     for parent, lst in facts.closure_signatures(F.j["bodies"], depth).items():
         clos[parent] = [e[1] for e in lst]
-json.dump({"_comment": "parameter names (by position) and closure use signatures (by closure number) of the reference tree; aliases only, see engine/rules/core/facts.py", "params": out, "closures": clos}, open(ref_path, "w"), indent=0, sort_keys=True)
+funs = facts.function_signatures(F.j["bodies"])
+json.dump({"_comment": "parameter names (by position), closure use signatures (by closure number) and function signatures of the reference tree; aliases only, see engine/rules/core/facts.py", "params": out, "closures": clos, "functions": funs}, open(ref_path, "w"), indent=0, sort_keys=True)
 if os.path.exists(ref_path + ".old"):
     os.remove(ref_path + ".old")
 print("%d functions" % len(out))
